@@ -195,7 +195,7 @@ Proof.
     + intros t Rt. destruct (Hr t Rt) as [Hh|(a&c0&b&E&Hs&Hf)]; [left; apply K1; exact Hh|].
       destruct a as [|a0 a]; simpl in E; inversion E; subst.
       * left. apply Sp. exact Hs.
-      * right. exists a, c0, b. repeat split; [assumption|].
+      * right. exists a, c0, b. repeat split; [assumption|assumption|].
         simpl in Hf. unfold delivs in Hf. simpl in Hf. fold (delivs a) in Hf. rewrite ft_app in Hf.
         apply app_eq_nil in Hf. apply Hf.
     + intros t Ht. apply Hd. simpl. unfold delivs. simpl. fold (delivs (pre ++ rest)). rewrite ft_app.
@@ -207,3 +207,226 @@ Definition deliver_inv (s : sys) : Prop :=
   fifo_inv s /\
   (forall n nd, nth_error (s_nodes s) n = Some nd -> w_dropped (n_w nd) = []) /\
   (forall t n nd, alookup t (e_router (s_env s)) = Some n -> nth_error (s_nodes s) n = Some nd -> ready t (n_w nd) (n_cmd nd)).
+
+(* the executor step drops nothing (it does not even look at the drop log) *)
+Definition dk (w w' : worker) : Prop := w_dropped w' = w_dropped w.
+Lemma dk_geq w w' : geq w w' -> dk w w'. Proof. intros (_&_&_&D). exact D. Qed.
+
+Lemma dk_run_slice i p pr d hint w w' ev : run_slice i p pr d hint w = Good (w', ev) -> dk w w'.
+Proof.
+  unfold run_slice, dk. destruct (negb (did_ok d)); [discriminate|].
+  destruct (take_seq (d_taken d) (p_mail pr)) as [[taken mail']|]; [|discriminate].
+  set (w1 := set_procs w _).
+  assert (Tail: forall w2 ev2, w_dropped w2 = w_dropped w ->
+            match d_fin d with
+            | Some r => w4 <- finish p r (d_heapy d) hint (if d_park d then mark_selecting p w2 else w2) ;; Good (w4, ev2)
+            | None => if mem p (w_spawning (if d_park d then mark_selecting p w2 else w2)) || mem p (w_selecting (if d_park d then mark_selecting p w2 else w2))
+                      then Good (if d_park d then mark_selecting p w2 else w2, ev2)
+                      else Good (enqueue p (if d_park d then mark_selecting p w2 else w2), ev2)
+            end = Good (w', ev) -> w_dropped w' = w_dropped w).
+  { intros w2 ev2 K2 H.
+    assert (K3: w_dropped (if d_park d then mark_selecting p w2 else w2) = w_dropped w) by (destruct (d_park d); exact K2).
+    destruct (d_fin d).
+    - destruct (finish _ _ _ _ _) as [w4|] eqn:F; simpl in H; [|discriminate]. inversion H; subst.
+      apply finish_ghost in F. destruct F as (_&_&_&F4). congruence.
+    - destruct (_ || _); inversion H; subst; exact K3. }
+  destruct (d_act d) as [[| t | ts]|]; intros H.
+  - eapply (Tail _ _ _ H). Unshelve. reflexivity.
+  - eapply (Tail _ _ _ H). Unshelve. reflexivity.
+  - eapply (Tail _ _ _ H). Unshelve.
+    unfold mark_selecting. simpl. destruct (geq_upd_proc p (fun q => with_awaiting (fold_left (fun a t => aset t None a) ts (p_awaiting q)) q) w1) as (_&_&_&G4).
+    exact G4.
+  - eapply (Tail _ _ _ H). Unshelve. reflexivity.
+Qed.
+
+Lemma dk_exec_step i now o w w' ev : exec_step i now o w = Good (w', ev) -> dk w w'.
+Proof.
+  unfold exec_step, dk. destruct (expire now (o_expired o) w) as [w1|] eqn:E; simpl; [|discriminate].
+  apply expire_ghost in E. destruct E as (_&_&_&E4).
+  destruct (w_queue w1) as [|p q']; [intros H; inversion H; subst; exact E4|].
+  destruct (alookup p (w_procs w1)) as [pr|]; [|intros H; inversion H; subst; exact E4].
+  destruct (match o_pid o with Some p' => p =? p' | None => false end).
+  - intros H. apply dk_run_slice in H. unfold dk in H. simpl in H. congruence.
+  - destruct (p_res pr) as [[v|e]|]; try discriminate.
+    destruct (finish _ _ _ _ _) as [w3|] eqn:F; simpl; [|discriminate]. intros H; inversion H; subst.
+    apply finish_ghost in F. destruct F as (_&_&_&F4). simpl in F4. congruence.
+Qed.
+
+(* Worker::step keeps every routed target ready and drops nothing *)
+Lemma node_step_ready (R : pid -> Prop) i now k o nd nd' :
+  node_step i now k o nd = Good nd' ->
+  (forall t, R t -> ready t (n_w nd) (n_cmd nd)) ->
+  (forall t, ft t (delivs (n_cmd nd)) <> [] -> R t) ->
+  w_dropped (n_w nd') = w_dropped (n_w nd) /\ (forall t, R t -> ready t (n_w nd') (n_cmd nd')).
+Proof.
+  unfold node_step. pose proof (split_at_app k (n_cmd nd)) as Hs.
+  destruct (split_at k (n_cmd nd)) as [pre later]. simpl in Hs.
+  destruct (handle_cmds pre (n_w nd)) as [[w1 e1]|] eqn:E1; simpl; [|discriminate].
+  destruct (exec_step i now o w1) as [[w2 e2]|] eqn:E2; simpl; [|discriminate].
+  destruct (check_completed (o_completed o) w2) as [[w3 e3]|] eqn:E3; simpl; [|discriminate].
+  intros H Hr Hd; inversion H; subst nd'; clear H. simpl.
+  rewrite <- Hs in Hr, Hd.
+  destruct (handle_cmds_ready R pre (n_w nd) later w1 e1 Hr Hd E1) as (D1&K1&R1).
+  pose proof (dk_exec_step _ _ _ _ _ _ E2) as D2. pose proof (pk_exec_step _ _ _ _ _ _ E2) as K2.
+  pose proof (check_completed_ghost _ _ _ _ E3) as ((_&_&_&D3)&_). pose proof (pk_check_completed _ _ _ _ E3) as K3.
+  unfold dk in D2. split; [congruence|].
+  intros t Rt. eapply ready_pk; [exact (pk_trans _ _ _ K2 K3)|apply R1; exact Rt].
+Qed.
+
+(* ------------------------------------------------------------------ environment side *)
+Definition EInv (e : env) (ns : list node) : Prop :=
+  (forall n nd, nth_error ns n = Some nd -> w_dropped (n_w nd) = []) /\
+  (forall t n nd, alookup t (e_router e) = Some n -> nth_error ns n = Some nd -> ready t (n_w nd) (n_cmd nd)).
+
+Lemma EInv_push e ns w c : EInv e ns -> EInv e (push_cmd w c ns).
+Proof.
+  intros (D&R). split.
+  - intros n nd Hn. rewrite nth_error_push in Hn. destruct (nth_error ns n) as [nd0|] eqn:En; [|discriminate].
+    inversion Hn; subst nd. destruct (n =? w); simpl; apply (D n nd0 En).
+  - intros t n nd Hr Hn. rewrite nth_error_push in Hn. destruct (nth_error ns n) as [nd0|] eqn:En; [|discriminate].
+    inversion Hn; subst nd. destruct (n =? w); simpl; [apply ready_app|]; apply (R t n nd0 Hr En).
+Qed.
+Lemma EInv_fold_push {A} (mk : A -> cmd) (wof : A -> wid) e l : forall ns,
+  EInv e ns -> EInv e (fold_left (fun ns a => push_cmd (wof a) (mk a) ns) l ns).
+Proof. induction l as [|a l IH]; intros ns H; simpl; [exact H|]. apply IH. apply EInv_push. exact H. Qed.
+Lemma EInv_pending e ns pend : EInv e ns -> EInv {| e_router := e_router e; e_next := e_next e; e_pending := pend |} ns.
+Proof. intros H; exact H. Qed.
+
+(* allocating a fresh pid and queueing its spawn command on the chosen worker *)
+Lemma EInv_alloc e ns evs w c :
+  GInv e ns evs -> EInv e ns -> w < length ns -> spawns c = Some (e_next e) ->
+  EInv {| e_router := aset (e_next e) w (e_router e); e_next := S (e_next e); e_pending := e_pending e |} (push_cmd w c ns).
+Proof.
+  intros (B&D&_&_) (Dr&R) Hw Hc.
+  assert (Hfresh: alookup (e_next e) (e_router e) = None).
+  { destruct (alookup (e_next e) (e_router e)) eqn:E; [|reflexivity]. apply B in E. lia. }
+  split.
+  - intros n nd Hn. rewrite nth_error_push in Hn. destruct (nth_error ns n) as [nd0|] eqn:En; [|discriminate].
+    inversion Hn; subst nd. destruct (n =? w); simpl; apply (Dr n nd0 En).
+  - intros t n nd Hr Hn. simpl in Hr. rewrite alookup_aset in Hr.
+    rewrite nth_error_push in Hn. destruct (nth_error ns n) as [nd0|] eqn:En; [|discriminate]. inversion Hn; subst nd; clear Hn.
+    destruct (t =? e_next e) eqn:Et.
+    + apply Nat.eqb_eq in Et. subst t. inversion Hr; subst n. rewrite Nat.eqb_refl. simpl.
+      right. exists (n_cmd nd0), c, []. repeat split; [exact Hc|].
+      apply (D w nd0 (e_next e) En). rewrite Hfresh. discriminate.
+    + destruct (n =? w); simpl; [apply ready_app|]; apply (R t n nd0 Hr En).
+Qed.
+
+Lemma handle_event_EInv nw ev evs e ns e' ns' :
+  0 < nw -> length ns = nw ->
+  handle_event nw ev (e, ns) = Good (e', ns') ->
+  GInv e ns (ev :: evs) -> EInv e ns -> EInv e' ns'.
+Proof.
+  intros Hnw Hlen H G EI. destruct ev; unfold handle_event in H; cbn -[Nat.modulo nodup] in H.
+  - revert H. match goal with |- context [@alookup ?A caller ?l] => destruct (@alookup A caller l) as [cw|] end; intros H; [|discriminate].
+    inversion H; subst e' ns'; clear H. apply EInv_push.
+    eapply EInv_alloc; [exact G|exact EI|rewrite Hlen; apply Nat.mod_upper_bound; lia|reflexivity].
+  - destruct (alookup target (e_router e)) as [w|]; [|discriminate]. inversion H; subst e' ns'. apply EInv_push. exact EI.
+  - revert H. match goal with |- context [forallb ?f targets] => destruct (forallb f targets) end; intros H; [|discriminate].
+    inversion H; subst e' ns'; clear H.
+    set (wof := fun t => match alookup t (e_router e) with Some w => w | None => 0 end).
+    apply (EInv_fold_push (fun w => CQuery awaiter (filter (fun t => wof t =? w) targets)) (fun w => w)).
+    apply EInv_pending. exact EI.
+  - destruct (alookup awaiter (e_pending e)) as [pa|].
+    + destruct (match results with [] => None | (t, _) :: _ => alookup t (e_router e) end) as [w|].
+      * destruct (sremove w (pa_expected pa)).
+        -- destruct (alookup awaiter (e_router e)) as [aw|]; [|discriminate]. inversion H; subst e' ns'.
+           apply EInv_push. apply EInv_pending. exact EI.
+        -- inversion H; subst e' ns'. apply EInv_pending. exact EI.
+      * inversion H; subst e' ns'. exact EI.
+    + destruct (alookup awaiter (e_router e)) as [aw|]; [|discriminate]. inversion H; subst e' ns'. apply EInv_push. exact EI.
+  - inversion H; subst e' ns'. exact EI.
+  - inversion H; subst e' ns'. exact EI.
+Qed.
+
+Lemma handle_events_EInv nw evs : forall e ns e' ns',
+  0 < nw -> length ns = nw ->
+  handle_events nw evs (e, ns) = Good (e', ns') ->
+  GInv e ns evs -> EInv e ns -> EInv e' ns'.
+Proof.
+  induction evs as [|ev evs IH]; intros e ns e' ns' Hnw Hlen H G EI; cbn [handle_events] in H.
+  - inversion H; subst e' ns'. exact EI.
+  - destruct (handle_event nw ev (e, ns)) as [[e1 ns1]|] eqn:E1; cbn [rbind] in H; [|discriminate].
+    destruct (handle_event_GInv nw ev evs e ns e1 ns1 Hnw Hlen E1 G) as (G1&L1).
+    pose proof (handle_event_EInv nw ev evs e ns e1 ns1 Hnw Hlen E1 G EI) as EI1.
+    eapply IH; eassumption.
+Qed.
+
+(* ------------------------------------------------------------------ the system invariant *)
+Definition deliver_ok (s : sys) : Prop := fifo_inv s /\ EInv (s_env s) (s_nodes s).
+
+Lemma deliver_init nw : 0 < nw -> deliver_ok (init nw).
+Proof.
+  intros H. split; [apply fifo_init; exact H|]. unfold init. simpl. split.
+  - intros n nd Hn. apply nth_error_In, repeat_spec in Hn. subst nd. reflexivity.
+  - intros t n nd Hr. discriminate.
+Qed.
+
+Lemma deliver_step s a s' : deliver_ok s -> sys_step s a = Good s' -> deliver_ok s'.
+Proof.
+  intros (F&EI) H. split; [eapply fifo_step; eassumption|].
+  destruct F as (Hn&G). destruct EI as (Dr&R). destruct a as [i k o|ks|d|c]; simpl in H.
+  - destruct (nth_error (s_nodes s) i) as [nd|] eqn:Ei.
+    + destruct (node_step i (s_clock s) k o nd) as [nd'|] eqn:Es; cbn [rbind] in H; [|discriminate].
+      inversion H; subst s'; clear H. simpl.
+      destruct (node_step_ready (fun t => alookup t (e_router (s_env s)) = Some i) _ _ _ _ _ _ Es) as (D1&R1).
+      { intros t Ht. apply (R t i nd Ht Ei). }
+      { intros t Ht. destruct G as (_&D&_&_).
+        destruct (Nat.eq_dec 0 0) as [_|]; [|contradiction].
+        destruct (alookup t (e_router (s_env s))) as [j|] eqn:Er.
+        - destruct (Nat.eq_dec j i) as [->|Hne]; [reflexivity|].
+          exfalso. apply Ht. apply (D i nd t Ei). rewrite Er. intros E; inversion E; contradiction.
+        - exfalso. apply Ht. apply (D i nd t Ei). rewrite Er. discriminate. }
+      split.
+      * intros n x Hx. destruct (Nat.eq_dec n i) as [->|Hne].
+        -- rewrite (nth_error_update_same _ _ _ _ Ei) in Hx. inversion Hx; subst x. rewrite D1. apply (Dr i nd Ei).
+        -- rewrite nth_error_update_other in Hx by exact Hne. apply (Dr n x Hx).
+      * intros t n x Hr Hx. destruct (Nat.eq_dec n i) as [->|Hne].
+        -- rewrite (nth_error_update_same _ _ _ _ Ei) in Hx. inversion Hx; subst x. apply R1. exact Hr.
+        -- rewrite nth_error_update_other in Hx by exact Hne. apply (R t n x Hr Hx).
+    + inversion H; subst s'. split; assumption.
+  - destruct (collect ks (s_nodes s)) as [evs ns] eqn:Ec.
+    destruct (handle_events (length (s_nodes s)) evs (s_env s, ns)) as [[e' ns']|] eqn:Eh; cbn [rbind] in H; [|discriminate].
+    inversion H; subst s'; clear H. simpl.
+    destruct (collect_GInv _ _ _ _ _ G Ec) as (G1&L1).
+    assert (EI1: EInv (s_env s) ns).
+    { destruct (collect_spec (s_nodes s) ks 0 evs ns) as (L&_&N); [intros k nd Hk; destruct G as (_&_&S&_); apply (S k nd Hk)|exact Ec|].
+      assert (Back: forall k nd', nth_error ns k = Some nd' -> exists nd, nth_error (s_nodes s) k = Some nd /\ n_w nd' = n_w nd /\ n_cmd nd' = n_cmd nd).
+      { intros k nd' Hk. destruct (nth_error (s_nodes s) k) as [nd|] eqn:Ek.
+        - destruct (N k nd Ek) as (nd2&A1&A2&A3&_). rewrite Hk in A1. inversion A1; subst nd2. exists nd. auto.
+        - apply nth_error_None in Ek. rewrite <- L in Ek. apply nth_error_None in Ek. congruence. }
+      split.
+      - intros n nd' Hn'. destruct (Back n nd' Hn') as (nd&Hk&A2&_). rewrite A2. apply (Dr n nd Hk).
+      - intros t n nd' Hr Hn'. destruct (Back n nd' Hn') as (nd&Hk&A2&A3). rewrite A2, A3. apply (R t n nd Hr Hk). }
+    eapply handle_events_EInv; try eassumption.
+  - inversion H; subst s'. split; assumption.
+  - unfold client_step in H. destruct c.
+    + inversion H; subst s'; clear H. cbn -[Nat.modulo].
+      eapply EInv_alloc; [exact G|split; assumption|apply Nat.mod_upper_bound; lia|reflexivity].
+    + inversion H; subst s'; clear H. simpl. apply EInv_push. split; assumption.
+    + inversion H; subst s'; clear H. simpl. apply EInv_push. split; assumption.
+    + destruct (alookup p (e_router (s_env s))); inversion H; subst s'; clear H; [|split; assumption].
+      simpl. apply EInv_push. split; assumption.
+    + destruct (alookup p (e_router (s_env s))); inversion H; subst s'; clear H; [|split; assumption].
+      simpl. apply EInv_push. split; assumption.
+Qed.
+
+Lemma deliver_run sigma : forall s s', deliver_ok s -> run s sigma = Good s' -> deliver_ok s'.
+Proof.
+  induction sigma as [|a sigma IH]; intros s s' Hc H; simpl in H.
+  - inversion H; subst. exact Hc.
+  - destruct (sys_step s a) as [s1|] eqn:E; cbn [rbind] in H; [|discriminate].
+    eapply IH; [eapply deliver_step; eassumption|exact H].
+Qed.
+
+(* C04: for every schedule and every oracle no DeliverMessage is ever handled for a process that
+   does not exist — every arrival (w_arrlog) is an append to the target's mailbox
+   (handle_cmd, CDeliver arm) — and a routed process is always either present on its worker or
+   about to be spawned there before any message for it is handled. *)
+Theorem no_message_dropped : forall nw sigma s,
+  0 < nw -> run (init nw) sigma = Good s ->
+  (forall n nd, nth_error (s_nodes s) n = Some nd -> w_dropped (n_w nd) = []) /\
+  (forall t n nd, alookup t (e_router (s_env s)) = Some n -> nth_error (s_nodes s) n = Some nd -> ready t (n_w nd) (n_cmd nd)).
+Proof.
+  intros nw sigma s Hnw H. destruct (deliver_run sigma _ _ (deliver_init nw Hnw) H) as (_&EI). exact EI.
+Qed.
